@@ -511,8 +511,14 @@ def r4(rep, c, st):
     edges = []
     for b, m, o in sws:
         for v, t in m.items():
-            if v in ("else", "_else_variants"):
+            if v == "_else_variants":
                 continue
+            if v == "else":
+                # `if let Some(p) = path {..} else {..}`: the remaining variants are taken through the else edge
+                rest = [x for x in m.get("_else_variants", []) if x not in m]
+                if not rest or any(t == t2 for v2, t2 in m.items() if v2 not in ("else", "_else_variants")):
+                    continue
+                v = "|".join(sorted(rest))
             edges.append((b, v, t, ps.edge_region(b, t)))
     leaves = []
     for b, v, t, reg in edges:
